@@ -48,11 +48,13 @@ static void make_knots(int n, int spacing, double *x)
  * window m = min(n, 5); m odd: numerator and denominator of order (m-1)/2;
  * m even: denominator order m/2, numerator one less.
  */
-#define NFUNC 7
+#define NFUNC 8
 static const char *func_name[NFUNC] = { "const", "a/(1+bx)", "linear",
     "(a+bx)/(1+dx)", "(a+bx)/(1+dx+ex2)", "quadratic",
-    "(a+bx+cx2)/(1+dx+ex2)" };
-static const int func_min_m[NFUNC] = { 1, 2, 3, 3, 4, 5, 5 };
+    "(a+bx+cx2)/(1+dx+ex2)", "lossy-delay-line" };
+/* the delay line is in no window's class: only exactness at knots and
+   independence of the query history are asserted for it */
+static const int func_min_m[NFUNC] = { 1, 2, 3, 3, 4, 5, 5, 99 };
 
 static double complex gen(int fn, double f)
 {
@@ -66,7 +68,8 @@ static double complex gen(int fn, double f)
     case 3: return (a + b * x) / (1.0 + d * x);
     case 4: return (a + b * x) / (1.0 + d * x + e * x * x);
     case 5: return a + b * x + c * x * x;
-    default: return (a + b * x + c * x * x) / (1.0 + d * x + e * x * x);
+    case 6: return (a + b * x + c * x * x) / (1.0 + d * x + e * x * x);
+    default: return 0.9 * cexp(-0.2 * x) * cexp(-I * 9.0 * x);
     }
 }
 
@@ -159,11 +162,20 @@ static void run_r0(int n, int spacing, int fn, vf_result *r)
 	double q[5];
 	double complex fresh[5];
 	int p[5] = { 0, 1, 2, 3, 4 };
-	q[0] = x[0];
-	q[1] = 0.5 * (x[0] + x[1]);
-	q[2] = x[n / 2];
-	q[3] = 0.5 * (x[n - 2] + x[n - 1]) * 1.00001;
-	q[4] = x[n - 1];
+	/* upper halves of intervals spread over the grid (the window is
+	   chosen around the bounding segment, which a search from a stale
+	   hint must find from either side), plus one knot */
+	{
+	    int iv[4];
+	    iv[0] = 0;
+	    iv[1] = (n - 2) / 3;
+	    iv[2] = (2 * (n - 2) + 1) / 3;
+	    iv[3] = n - 2;
+	    for (int k = 0; k < 4; ++k)
+		q[k] = x[iv[k]] + (k & 1 ? 0.7 : 0.85) *
+		    (x[iv[k] + 1] - x[iv[k]]);
+	    q[4] = x[n / 2];
+	}
 	for (int k = 0; k < 5; ++k) {
 	    int h2 = vnacal_make_vector_parameter(vcp, x, n, y);
 	    fresh[k] = vnacal_get_parameter_value(vcp, h2, q[k]);
